@@ -86,6 +86,40 @@ func runFOp(w *world.World, t *mast.Mast, op fOp, aux *mast.Mast) (world.Res, st
 				obs = cc.String()
 			}
 			return err
+		case "DiffCursor":
+			// StartDiff, then NextEntry until it reports the end; a NextEntry that fails is retried on the
+			// very same cursor (lastCursorRun), and the walk goes on from there
+			dc, err := t.StartDiff(ctx, aux)
+			if err != nil {
+				return err
+			}
+			cr := &cursorRun{}
+			var ks []string
+			done := false
+			for i := 0; i < 2*cfg.NAll()+2; i++ {
+				cr.steps = append(cr.steps, func() error {
+					if done {
+						return nil
+					}
+					d, err := dc.NextEntry(ctx)
+					if err == mast.ErrNoMoreDiffs {
+						done = true
+						return nil
+					}
+					if err != nil {
+						return err
+					}
+					ks = append(ks, fmt.Sprintf("%d:%d", d.Type, keyIndex(cfg, d.Key)))
+					return nil
+				})
+			}
+			cr.obsf = func() string { return fmt.Sprint(ks, done) }
+			lastCursorRun.Store(w, cr)
+			err = cr.resume()
+			if err == nil {
+				obs = cr.obs(cfg)
+			}
+			return err
 		case "CursorMin", "CursorMax", "CursorCeil", "CursorMinFwd", "CursorMaxBack", "CursorCeilFwd", "CursorCeilBack":
 			// a navigation sequence is a list of steps on one cursor; lastCursorRun remembers where
 			// it stopped so that the failing step can be retried on the very same cursor
@@ -135,6 +169,7 @@ type cursorRun struct {
 	cur   *mast.Cursor
 	steps []func() error
 	next  int
+	obsf  func() string
 }
 
 func (c *cursorRun) resume() error {
@@ -148,6 +183,9 @@ func (c *cursorRun) resume() error {
 }
 
 func (c *cursorRun) obs(cfg *world.Config) string {
+	if c.obsf != nil {
+		return c.obsf()
+	}
 	k, _, ok := c.cur.Get()
 	o := fmt.Sprintf("%v", ok)
 	if ok {
@@ -173,7 +211,7 @@ func fOps(cfg *world.Config) []fOp {
 	for i := 0; i < len(cfg.Keys); i++ {
 		ops = append(ops, fOp{name: "CursorMinFwd", k: i}, fOp{name: "CursorMaxBack", k: i})
 	}
-	ops = append(ops, fOp{name: "Get", k: len(cfg.Keys)}, fOp{name: "Iter"}, fOp{name: "DiffIter"}, fOp{name: "DiffLinks"}, fOp{name: "Clone"}, fOp{name: "CursorMin"}, fOp{name: "CursorMax"})
+	ops = append(ops, fOp{name: "Get", k: len(cfg.Keys)}, fOp{name: "Iter"}, fOp{name: "DiffIter"}, fOp{name: "DiffLinks"}, fOp{name: "DiffCursor"}, fOp{name: "Clone"}, fOp{name: "CursorMin"}, fOp{name: "CursorMax"})
 	return ops
 }
 
@@ -336,7 +374,7 @@ func c12State(run *report.Run, cfg *world.Config, hist []world.Op, acc *pairAcc,
 			// retry after the fault has cleared; a cursor navigation is retried on the same cursor
 			var res2 world.Res
 			var obs2 string
-			if cr, ok := lastCursorRun.Load(w); ok && strings.HasPrefix(op.name, "Cursor") && cr.(*cursorRun).next > 0 {
+			if cr, ok := lastCursorRun.Load(w); ok && (strings.HasPrefix(op.name, "Cursor") && cr.(*cursorRun).next > 0 || op.name == "DiffCursor") {
 				c := cr.(*cursorRun)
 				res2 = guardRes(c.resume)
 				if res2.Err == nil && res2.Panic == nil {
@@ -397,6 +435,10 @@ func C12Configs(thorough bool) []*world.Config {
 		// height-3 trees (three loads on one descent): seeded starts, the states within one operation of them
 		ChainSeeded(B, 1),
 		seededFull(world.UintCfg(2, urange(0, 8), 1, M, "none"), 1),
+		// an evicting cache shared by everything the history loaded: a failing operation must not leave
+		// a half-processed object behind in it (capacity 1 and 2: loads still happen, hits interleave)
+		world.UintCfg(2, urange(1, 5), 1, B, "tiny1"),
+		world.UintCfg(2, urange(1, 5), 1, M, "tiny2"),
 	}
 	if thorough {
 		cs = append(cs, world.UintCfg(2, urange(1, 6), 1, B, "none"), world.UintCfg(2, urange(0, 8), 1, M, "none"), world.UintCfg(3, ulist(1, 2, 3, 4, 6, 9), 1, B, "none"),
